@@ -332,6 +332,22 @@ impl Subject {
     /// Lower an accepted root through stack IR, closure conversion and assembly, stage by stage
     /// under catch_unwind (mirrors `zydeco_cli::BackendProgram::lower`).
     pub fn lower(&self) -> Result<zydeco_cli::BackendProgram, LowerFail> {
+        let (spans, lowering_scoped, statics, sps_low) = self.lower_to_sps_low()?;
+        let assembly = match guarded(|| zydeco_assembly::LoweringPipeline::new(&spans, &lowering_scoped, &statics, &sps_low).run()) {
+            | Ok(a) => a,
+            | Err(p) => return Err(LowerFail::Panic("assembly lowering", p)),
+        };
+        Ok(zydeco_cli::BackendProgram { spans, scoped: lowering_scoped, statics, sps_low, assembly })
+    }
+
+    /// The first two stages only: stack-IR lowering and closure conversion.
+    #[allow(clippy::type_complexity)]
+    pub fn lower_to_sps_low(
+        &self,
+    ) -> Result<
+        (Arc<zydeco_surface::textual::syntax::SpanArena>, zydeco_surface::scoped::arena::ScopedArena, Arc<zydeco_statics::arena::StaticsArena>, zydeco_stackir::SpsLowProgram),
+        LowerFail,
+    > {
         use zydeco_stackir::{BuiltinRootLowerer, RootLowerer, SpsLowPipeline};
         use zydeco_surface::scoped::arena::ScopedArena;
         use zydeco_utils::pass::CompilerPass;
@@ -370,10 +386,6 @@ impl Subject {
             | Ok(s) => s,
             | Err(p) => return Err(LowerFail::Panic("closure conversion", p)),
         };
-        let assembly = match guarded(|| zydeco_assembly::LoweringPipeline::new(&spans, &lowering_scoped, &statics, &sps_low).run()) {
-            | Ok(a) => a,
-            | Err(p) => return Err(LowerFail::Panic("assembly lowering", p)),
-        };
-        Ok(zydeco_cli::BackendProgram { spans, scoped: lowering_scoped, statics, sps_low, assembly })
+        Ok((spans, lowering_scoped, statics, sps_low))
     }
 }
